@@ -23,6 +23,9 @@ def main():
     def one(inp):
         nonlocal cases
         cases += 1
+        if req.get("log_cases"):
+            sys.stderr.write("CASE " + json.dumps(inp, default=str) + "\n")
+            sys.stderr.flush()
         try:
             res = spec["call"](inp)
             err = None
